@@ -18,7 +18,7 @@ from mc import core, grammar, values
 ID = 'C19'
 ENV = {'LC_ALL': 'C', 'LANG': 'C', 'PYTHONUTF8': '0', 'PYTHONCOERCECLOCALE': '0'}
 META = {
-    'rule': "pool of 52 JSON/YAML-representable typed values (None, bools, ints incl. 10**20, floats incl. -0.0 / 1e300 / inf, 22 strings: "
+    'rule': "pool of 60 JSON/YAML-representable typed values (None, bools, ints incl. 10**20, floats incl. -0.0 / 1e300 / inf, 22 strings: "
             "'', non-ASCII, astral, multi-line, leading/trailing space, 'yes', 'null', '1', 'a: b', '# c', quotes, tabs, 100 chars; nested "
             "lists / dicts; typed containers; Decimal / date / Optional; five dataclass fixtures incl. renamed, nested, tuple-output) x "
             "sink kind (Path, str path, caller-opened text file in utf-8 and latin-1, StringIO, returned string of write_json()/write_yaml()) x "
@@ -57,6 +57,11 @@ def value_pool():
                        ('dc_alias', {'myField': 4, 'otherOne': 'null'}), ('dc_tupleout', [5, 2.5]), ('dc_defaults', {}),
                        ('dc_rich', {'f': '1/3', 's': [1, 2], 'm': {'x': '2.5'}})):
         out.append((('dc', leaf, data), leaf, 'dataclass'))
+    # tagged unions in the three layouts (sort_keys=True puts the content key 'c' before the tag key 't')
+    for leaf, data in (('tag_int', {'x': 'v2', 'y': 'q'}), ('tag_ext', {'v1': {'y': 3}}), ('tag_adj', {'t': 'v2', 'c': {'y': 'é'}}),
+                       ('tag_num', {'t': 2, 'c': {'y': [1, 2]}})):
+        out.append((('dc', leaf, data), leaf, 'tagged'))
+        out.append((('dc', ['list', leaf], [data, data]), ['list', leaf], 'tagged'))
     return out
 
 
@@ -212,7 +217,7 @@ def read(pane, fmt, text, T, source, tmp, is_dc, rawbytes=None):
 
 def round_trip(pane, res, vi, entry, fmt, sink, source, opts, tmp):
     x, T, label = entry
-    is_dc = hasattr(type(x), '__pane_info__')
+    is_dc = hasattr(type(x), '__pane_info__') and label != 'tagged'     # (a tagged value is written through the union type, not its class)
     cell = {'vi': vi, 'fmt': fmt, 'sink': sink, 'source': source, 'opts': opts}
     desc = f"{fmt} {sink}->{source} opts={opt_class(opts)}: {core.srepr(x, 50)}"
     sig = {'fmt': fmt}
